@@ -41,7 +41,7 @@ func TestVerifC11(t *testing.T) {
 			continue
 		}
 		for _, ttl := range []int{10, 60} {
-			for _, mode := range []string{"tltime", "tlnr"} {
+			for _, mode := range []string{"tltime", "tlnr", "number"} {
 				for _, periods := range []int{0, 60} {
 					for _, tsbd := range []int64{60, 7} {
 						for _, start := range []int64{0, 1_700_000_040} {
@@ -70,11 +70,12 @@ func TestVerifC11(t *testing.T) {
 func c11Run(rep *vh.Report, srv *Server, a *vref.VAsset, asset string, ttl int, mode string, periods int, tsbd, start int64, quick bool) {
 	v := a.Ref
 	var parts []string
-	if mode == "tltime" {
+	switch mode {
+	case "tltime":
 		parts = append(parts, "segtimeline_1")
-	} else {
+	case "tlnr":
 		parts = append(parts, "segtimelinenr_1")
-	}
+	} // "number": plain $Number$ SegmentTemplate
 	parts = append(parts, fmt.Sprintf("patch_%d", ttl), fmt.Sprintf("tsbd_%d", tsbd))
 	if start > 0 {
 		parts = append(parts, fmt.Sprintf("start_%d", start))
